@@ -50,6 +50,8 @@ pub mod _benchable {
 // WARNING: verification hooks (cfg(httparse_verif) only), not fit for public consumption
 pub mod _verif {
     pub use super::simd::verif::*;
+    #[cfg(feature = "std")]
+    pub use super::iter::verif_counters as counters;
 
     pub fn is_method_token(b: u8) -> bool {
         super::is_method_token(b)
